@@ -205,7 +205,7 @@ SPSP = [2047, 3277, 4033, 4681, 8321, 15841, 29341, 42799, 49141, 52633, 65281, 
         3317044064679887385961981]
 CARMICHAEL = [561, 1105, 1729, 2465, 2821, 6601, 8911, 10585, 15841, 29341, 41041, 46657, 52633, 62745, 63973,
               75361, 101101, 115921, 126217, 162401, 172081, 188461, 252601, 278545, 294409, 314821, 334153,
-              340561, 399001, 410041, 449065, 488881, 512461, 1033669, 9999109081, 99999999999999997,
+              340561, 399001, 410041, 449065, 488881, 512461, 1033669, 9999109081,
               # Chernick (6k+1)(12k+1)(18k+1)
               (6 * 1515 + 1) * (12 * 1515 + 1) * (18 * 1515 + 1)]
 
